@@ -139,17 +139,13 @@ impl<'a, 'b, T: TestDriver> DataRowIterator<'a, 'b, T> {
 }
 
 #[cfg(feature = "verif-hooks")]
-impl<'a, 'b, T> DataRowIterator<'a, 'b, T> {
-    /// Canonical rendering of the complete state of the iterator, for explicit-state exploration
+impl<'a, 'b, T: std::fmt::Debug> DataRowIterator<'a, 'b, T> {
+    /// Rendering of the complete state of the iterator, for explicit-state exploration: the
+    /// derived `Debug` of the whole struct (so that every field, present or future, is part of
+    /// it) followed by a canonical rendering of the context (hash maps print in arbitrary order;
+    /// the harness drops those sections from the first part)
     pub fn verif_state_key(&self) -> String {
-        format!(
-            "iter={:?} cache={:?} prev={:?} output_indices={:?} ctx[{}]",
-            self.test_data.iter,
-            self.test_data.cache,
-            self.test_data.prev,
-            self.test_data.output_indices,
-            self.ctx.verif_key()
-        )
+        format!("{:?} ctx[{}]", self, self.ctx.verif_key())
     }
 }
 
